@@ -574,6 +574,8 @@ def check_c03(idx: Index, tier: str, res: Result) -> None:
     res.floor("built-in renderings checked as operands", nself, 150)
     _builtin_shapes(res, renderers)
 
+    _time_shift_builtins(idx, res)
+
     # ---- (5) loud failure --------------------------------------------------------------------------------------------------------
     pe = idx.func(PY, "parseExpression")
     branches = {}
@@ -1130,3 +1132,91 @@ def _ir_tree_calls(node, probes: Dict[str, str]) -> ast.AST:
         op = {"<": ast.Lt, "<=": ast.LtE, ">": ast.Gt, ">=": ast.GtE, "=": ast.Eq, "<>": ast.NotEq}[n]
         return ast.Compare(left=_ir_tree_calls(node["args"][0], probes), ops=[op()], comparators=[_ir_tree_calls(node["args"][1], probes)])
     return _ir_tree(node, probes)
+
+
+
+def _time_shift_builtins(idx: Index, res: Result) -> None:
+    """DELAY and INIT move the time argument of an already generated text with re.sub / str.replace.  Their constants are read
+    from the source and applied (standard library semantics, no repository code runs) to sample texts built from the
+    extracted identifier template."""
+    pe = idx.func(PY, "parseExpression")
+    idtmpl = None
+    for n in ast.walk(pe.node):
+        if isinstance(n, ast.Return) and isinstance(n.value, ast.Call) and call_name(n.value) == "format" and "self.memoize" in src(n.value.func.value):
+            idtmpl = n.value.func.value.value
+    if idtmpl is None:
+        raise AnalysisError("parseExpression: identifier template not found")
+    samples = [idtmpl.format("a"), "%s * 2 + t" % idtmpl.format("a"), "max( %s , t )" % idtmpl.format("rate_a")]
+    # ---- DELAY ----
+    dl = idx.func(PY, "delay")
+    pats = {}
+    for n in walk_no_nested(dl.node):
+        if isinstance(n, ast.Assign) and isinstance(n.targets[0], ast.Name) and isinstance(n.value, ast.Constant) and isinstance(n.value.value, str):
+            pats.setdefault(n.targets[0].id, []).append(n.value.value)
+    subs = [c for c in iter_calls(dl.node) if call_name(c) == "sub" and call_recv(c) == "re"]
+    shift = [c for c in subs if any(isinstance(x, ast.Name) and x.id == "offset" for x in ast.walk(c.args[1]))]
+    if len(shift) != 1 or "pattern" not in pats:
+        raise AnalysisError("delay(): time-shift rewrite not found")
+    pattern = pats["pattern"][-1]
+
+    def build_repl(e: ast.AST, offset_text: str) -> str:
+        if isinstance(e, ast.Constant):
+            return e.value
+        if isinstance(e, ast.BinOp) and isinstance(e.op, ast.Add):
+            return build_repl(e.left, offset_text) + build_repl(e.right, offset_text)
+        if isinstance(e, ast.Call) and call_name(e) == "str" and src(e.args[0]) == "offset":
+            return offset_text
+        if isinstance(e, ast.Name) and e.id == "offset":
+            return offset_text
+        raise AnalysisError("delay(): replacement %r not understood" % src(e))
+    for off in ("o1 + o2", "2.0"):
+        repl = build_repl(shift[0].args[1], off)
+        for smp in samples:
+            out = re.sub(re.compile(pattern), repl, smp)
+            want = re.sub(r"(?<![A-Za-z_.])t(?![A-Za-z_.])", "(t - (%s))" % off, smp)
+            try:
+                ok = nf(parse_expr(out)) == nf(parse_expr(want))
+            except SyntaxError:
+                ok = False
+            res.check("SHIFT", "DELAY moves every t of %s by (%s)" % (smp[:40], off), ok, dl.loc(shift[0]), "delay", "%s -> %s" % (smp[:50], out[:70]),
+                      "DELAY(x, offset) rewrites '%s' to '%s'; every occurrence of the time must become t - (offset) with the offset kept as a "
+                      "unit" % (smp[:60], out[:80]), key="SHIFT/delay/%s/%s" % (smp[:25], off))
+    rets = [n for n in walk_no_nested(dl.node) if isinstance(n, ast.Return)]
+    ok = len(rets) == 1 and "self.delay( {},{},{},t)" in src(rets[0].value).replace("'", "").replace('"', "") and \
+        [src(a) for c in ast.walk(rets[0].value) if isinstance(c, ast.Call) and call_name(c) == "format" for a in c.args] == ["tDelayed", "offset", "initial"]
+    res.check("SHIFT", "DELAY is emitted as self.delay(shifted, offset, initial, t)", ok, dl.loc(), "delay", src(rets[0].value)[:100] if rets else "",
+              "DELAY is emitted as %s" % (src(rets[0].value)[:90] if rets else "?"), key="SHIFT/delay/emit")
+    methods, _ = jinja_methods(idx)
+    dm = methods.get("delay")
+    ok = False
+    if dm is not None:
+        ps = [a.arg for a in dm.args.args]          # self, tdelayed, offset, initial, t
+        ifs = [n for n in dm.body if isinstance(n, ast.If)]
+        if len(ifs) == 1 and len(ps) == 5:
+            t = ifs[0].test
+            rt = [x for x in ast.walk(ifs[0]) if isinstance(x, ast.Return)]
+            ok = nf(t) == nf("(%s - self.starttime) < %s" % (ps[4], ps[2])) and len(rt) == 2 and \
+                src(ifs[0].body[0].value) == ps[3] and src(ifs[0].orelse[0].value) == ps[1]
+    res.check("SHIFT", "generated delay(): initial before start+offset, shifted input afterwards", ok, "%s (template)" % JINJA, "jinja:simulation_model.delay",
+              src(dm)[:120] if dm is not None else "", "the generated delay() helper does not return the initial value while t - start < offset and the "
+              "shifted input afterwards", key="SHIFT/jinja:delay")
+    # ---- INIT ----
+    _, bis, _ = py_tables(idx)
+    init = [v for k, v in zip(bis.keys, bis.values) if const_str(k) == "init"]
+    if len(init) != 1 or not isinstance(init[0], ast.Lambda):
+        raise AnalysisError("builtins['init'] not found")
+    body = init[0].body
+    ok = isinstance(body, ast.Call) and call_name(body) == "replace" and len(body.args) == 2 and all(isinstance(a, ast.Constant) for a in body.args)
+    if ok:
+        a, b = body.args[0].value, body.args[1].value
+        for smp in samples[:2]:
+            out = smp.replace(a, b)
+            want = re.sub(r",\s*t\)", ", self.starttime)", smp)
+            try:
+                good = nf(parse_expr(out)) == nf(parse_expr(want))
+            except SyntaxError:
+                good = False
+            res.check("SHIFT", "INIT reads %s at the start time" % smp[:40], good, "%s:%d" % (PY, init[0].lineno), "builtins['init']", "%s -> %s" % (smp[:50], out[:60]),
+                      "INIT(x) rewrites '%s' to '%s'; every memo lookup must move to self.starttime" % (smp[:60], out[:70]), key="SHIFT/init/%s" % smp[:25])
+    else:
+        raise AnalysisError("builtins['init'] has an unrecognised shape")
